@@ -60,6 +60,11 @@ CLAIMED = {
          "TLC checks that the dispatch/decomposition model (portable loop, scalar assembly with its word count, SSSE3 blocks + scalar tail) tiles every buffer exactly for all even lengths up to 512 and around 2^16/2^17; the real kernels are then driven on every path - portable Go in byte and word form, scalar assembly, SSSE3 assembly, and the exported functions with the dispatch flag forced both ways - for mul and muladd, every even length 0..320 and lengths around 64 KiB and 128 KiB, seeded source/destination offsets, constants including 0, 1, 2, 3, 0x8000, 0xFFFF, on mmapped buffers that end or start flush against inaccessible pages with canaries; TLC judges every output word with the definitional field product and asserts the observed no-fault, canary-intact and input-unchanged flags; a sweep over constants x all 65536 word values per path nominates any mismatch to TLC.",
          "Memory safety is observed by instrumentation (guard pages, canaries), not derived by the model; windows + T.Times comparison for buffers over 4 KiB; only amd64 with SSSE3 can drive all three paths.",
          "DESIGN.md section 5 C09"),
+ "C05": ("model_checking",
+         "Par2Format.tla truth layer over a record view from an independent tokenizer: TLC judges every file the real par2.Create writes (framing, hashes, set id, file ids and LE order, checksums, exponents exactly once, recovery words = sum slice_i*Const(i)^e with Const defined from the exclusion rule); TLC enumerates the small shapes and checks layout/constants",
+         "The PAR2 format is specified in TLA+ (Par2Format.tla over GF.tla and Par2Const.tla, where the constants are defined from the specification's exclusion rule and checked to be 32768 distinct elements of order 65535). TLC checks the volume layout for every R and enumerates small input shapes; every shape and a seeded family of large sets (sizes around the slice size and around 16384, slice sizes 4..128 KiB, up to hundreds of recovery blocks in several volume files, thousands to 32768 slices, goroutines 1..40) go through the real par2.Create; an independent tokenizer (written from the PAR 2.0 specification, importing nothing from gopar) turns every written file into records and TLC decides framing, packet MD5s, set id, file ids and their little-endian order, file/16k hashes, per-slice MD5/CRC32, creator packets, 'blocks 0..n-1 exactly once' and the recovery data itself (every word for small sets, seeded word columns of every block for large ones).",
+         "MD5/CRC32 computed by Go's standard library inside the observer; sampled word columns for large sets.",
+         "DESIGN.md section 5 C05"),
 }
 
 NOT_YET = "check under construction in this round; not claimed until it runs green on the unchanged tree"
